@@ -54,6 +54,7 @@ def gen_cases(rng, tier):
             nogo.append(gen_poly(rng, c0, c0 + rng.randrange(3, 8), rng.choice([3, 4])))
         if rng.random() < 0.5:
             outl = [list(reversed(o)) for o in outl]
+        nogo = [list(reversed(z)) if rng.random() < 0.5 else z for z in nogo]
         bmin = F(rng.randrange(12, 28), 4)
         cases.append({"outlines": [[v4(v) for v in o] for o in outl], "nogo": [[v4(v) for v in o] for o in nogo],
                       "bmin": [bmin.numerator, bmin.denominator], "bx": [(bmin + 4).numerator, (bmin + 4).denominator],
@@ -80,6 +81,17 @@ def gen_cases(rng, tier):
         bmin = F(rng.randrange(12, 20), 4)
         cases.append({"outlines": [[v4(v) for v in o]], "nogo": [], "bmin": [bmin.numerator, bmin.denominator], "bx": [(bmin + 4).numerator, (bmin + 4).denominator],
                       "by": [(bmin + 5).numerator, (bmin + 5).denominator], "want_grid": True, "float": False, "_outl": [o], "_nogo": []})
+    # outlines digitised as many short segments whose CLOSING segment (last vertex back to the first) is the long straight side, with a
+    # grid column inside the tolerance band of that side (0.3 m away; the band of a 40 m segment is 0.45 m wide, of a 10 m one 0.22 m):
+    # once as the property outline (the column is kept as contour) and once as a no-go zone (the column is removed as contour)
+    x0 = F(3, 10)
+    lot = [(x0, F(0)), (F(10), F(0)), (F(20), F(0)), (F(30), F(0)), (F(30), F(10)), (F(30), F(20)), (F(30), F(30)), (F(30), F(40)), (F(20), F(40)), (F(10), F(40)), (x0, F(40))]
+    zone = [(x0, F(2)), (F(6), F(2)), (F(6), F(10)), (F(6), F(20)), (F(6), F(30)), (F(6), F(38)), (x0, F(38))]
+    big = [(F(0), F(0)), (F(30), F(0)), (F(30), F(40)), (F(0), F(40))]
+    for outl, nogo in (([lot], []), ([big], [zone])):
+        bmin = F(3)
+        cases.append({"outlines": [[v4(v) for v in o] for o in outl], "nogo": [[v4(v) for v in o] for o in nogo], "bmin": [3, 1], "bx": [7, 1], "by": [8, 1],
+                      "want_grid": True, "float": False, "_outl": outl, "_nogo": nogo})
     return cases
 
 
@@ -119,7 +131,7 @@ def oracle(chk, c, o, kind="land"):
                     if crossing_inside(z, p) and focal_excess(zf, pf) > float(TOL) * 10:
                         chk.violation(kind, pub, {"list": li, "point": [str(p[0]), str(p[1])]}, "no borehole inside a no-go polygon")
                         return n
-                    if any(onseg(z[i - 1], z[i], p) for i in range(len(z))):
+                    if any(onseg(z[i - 1], z[i], p) for i in range(len(z))) or focal_excess(zf, pf) < float(TOL) * 0.9:
                         chk.violation(kind, pub, {"list": li, "point": [str(p[0]), str(p[1])]}, "no borehole on the boundary of a no-go polygon")
                         return n
     return n
@@ -182,8 +194,12 @@ def design_cases(rng, tier, cases):
     out.append(([[(F(x), F(y)) for x, y in Lsh], [(F(18), F(16)), (F(36), F(16)), (F(36), F(32)), (F(18), F(32))]], [], F(7, 2)))
     # a sub-lot that really is covered by the main lot (adds nothing): must change nothing either
     out.append(([[(F(0), F(0)), (F(40), F(0)), (F(40), F(30)), (F(0), F(30))], [(F(5), F(5)), (F(20), F(5)), (F(20), F(20)), (F(5), F(20))]], [], F(4)))
+    def area2(z):
+        return sum(z[i - 1][0] * z[i][1] - z[i][0] * z[i - 1][1] for i in range(len(z)))
     res = []
-    for outl, nogo, bmin in out:
+    for k, (outl, nogo, bmin) in enumerate(out):
+        # zones alternately listed clockwise and counter-clockwise, whatever the generator produced
+        nogo = [z if (area2(z) > 0) == ((k + j) % 2 == 0) else list(reversed(z)) for j, z in enumerate(nogo)]
         gc = {"b_min": float(bmin), "b_max_x": float(bmin + 4), "b_max_y": float(bmin + 5),
               "property_boundary": [[[float(x), float(y)] for x, y in o] for o in outl] if len(outl) > 1 or rng.random() < 0.5 else [[float(x), float(y)] for x, y in outl[0]],
               "no_go_boundaries": [[[float(x), float(y)] for x, y in z] for z in nogo]}
